@@ -21,6 +21,11 @@ CHECKS = {
     text="Blocks a1..a_f | b1..b_(f+1) (reorg: f detached, f+1 attached) | a_(f+1) a_(f+2) (reorg back; block-1 proposals leave the window) for f = 1 and 3 (2 and 4 with a header dep). Scenarios: parent/child chain, two conflicting spends, a header-dep on a1 plus a bystander, a cell-dep user and the dep cell's spender. Per transaction and branch the role is nothing / proposed in block 1 / proposed and committed in block 3 (all 9 combinations per tx, invalid ones filtered); each transaction is submitted never or at one of the positions {start, after a1, after a2, end of first lead, just before B overtakes, after B overtook, end} (quick: never/start/after a1/after B overtook). After every submission and block, once the pool reports the new tip: no pooled tx is committed on the main chain, every input and cell dep is live on it or created by a pooled tx, every header dep is on it, every tx committed only on the abandoned branch and admissible on the new one is pooled again, and with the assembler on each entry's stage equals proposed/gap/pending computed from the new chain's proposal window.",
     note="Trusted: the pool dump hook; forged blocks are built with ckb's own reward/DAO calculators. Not covered: interleavings of the reorg notification with a concurrent submission (each event runs to quiescence), expiry and size-limit eviction during reorgs, RBF during reorgs.",
     design="DESIGN.md §5 C12"),
+ "C13": dict(engine="node", category="model_checking",
+    technique="explicit-state breadth-first search over operation histories on a real node with tx-pool and block assembler (every transition a real submit / mined template / forged sibling / forged reorg), from four seed states, in three worlds with reachable block limits; in every reached state the template is sealed and processed by a twin node positioned on the parent the template names",
+    text="Worlds: block bytes limited to about three transactions, block cycles limited to three transactions, no tight limit (proposal limit 3, 4-block epochs, window 2..4). Alphabet: Submit of nine designed transactions (chain of three, a two-parent join, a dep user and the dep cell's spender, two independent ones, a conflicting replacement), Mine (seal and process the node's own template), Uncle (a forged sibling of the tip arrives), Reorg (two forged blocks detach the tip). Seeds: empty; four proposed transactions (more than a block takes); chain + join proposed; one block before the epoch boundary. After every operation the template returned immediately (if it still names the previous tip it is checked on that parent) and the template naming the current tip are sealed with a fresh nonce and processed by the twin: the node's own full verification (header, proposals window, transactions, cellbase reward, DAO, epoch, uncles, extension, size and cycle limits) must accept it; and against the pool dump every template transaction has all its pooled parents earlier in the template, no cell is spent twice, proposals are within the limit.",
+    note="Trusted: dump hook, background-idle hook and candidate-uncle reset hook. The moment of the template request relative to the assembler's internal processing is what the real threads produce (one immediate and one quiescent request per operation), not an enumerated schedule.",
+    design="DESIGN.md §5 C13"),
  "C15": dict(engine="seq", category="exploration",
     technique="small-scope exhaustive enumeration of value shapes (all vector lengths 0..2, all option/union arms, numeric extremes in every position) and of single-field / single-byte mutations, with round-trip, field-content and hash-commitment oracles",
     text="243 transaction shapes, 81 block shapes, every script hash type x args size, every protocol union arm (27 messages) are pushed through: molecule strict/compatible decode and field-by-field rebuild; packed->JSON->text->JSON->packed and back; a field-by-field comparison of the JSON object with the packed fields it names (so a swap in both conversion directions is caught); hash laws under an 18-entry transaction mutation catalogue and a block mutation catalogue (tx hash ignores witnesses only, witness hash / transactions root / proposals hash / extra hash / block hash each change when they must, cached view hashes equal recomputation); and ~400k single-byte, header-word and truncation mutants of the encodings, where every mutant accepted by strict decoding must re-encode to itself.",
